@@ -227,6 +227,11 @@ def gen_tick(rng):
     if sig:
         src += rng.choice(["TimeSignature(%d,%d) ", "TimeSig(%d,%d)\n", "TIMESIG(%d, %d) ", "System.TimeSignature=%d,%d; "]) % (n, d)
     if k is not None:
+        # the shift IN FORCE is the last one written (earlier ones, also ones already used by a TIME, do not add up)
+        for k0 in [rng.choice([0, 1, 2, 3, -1]) for _ in range(rng.choice([0, 0, 0, 1, 2]))]:
+            src += rng.choice(["MeasureShift(%d) ", "System.MeasureShift(%d) ", "MEASURE_SHIFT(%d)\n"]) % k0
+            if rng.random() < 0.4:
+                src += "TIME(%d:1:0) " % rng.choice([1, 2, 3])
         src += rng.choice(["MeasureShift(%d) ", "System.MeasureShift(%d) ", "MEASURE_SHIFT(%d)\n", "MeasureShift=%d; "]) % k
     kk = k or 0
     if rng.random() < 0.2:
